@@ -8,8 +8,8 @@ from ..cfg import CFG, Node
 from ..core import AnalysisError, Cls, Fn, Repo, call_name, calls_in, const_value, dotted, get_kw, last_attr, short, walk_no_nested
 from ..registry import extract
 from ..report import Check
-from ..terms import Atom, Poly, TermBuilder, expand_phi, mentions, single_atom, walk_atoms
-from ._c18_r3b import ACCUMULATING, buffer_def, flat_view, mass_writes, run_r3b, strong_def, through
+from ..terms import Atom, Poly, TermBuilder, bind_arg, expand_phi, mentions, single_atom, walk_atoms
+from ._c18_r3b import ACCUMULATING, buffer_def, flat_view, mass_writes, run_r3b, strong_def, through, unrolled
 
 RB = "agilerl.algorithms.dqn_rainbow"
 
@@ -146,13 +146,15 @@ def _run(ck: Check, repo: Repo) -> None:
 
     reg = extract(repo, RB, "RainbowDQN")
     # ---- C18.2 neighbour weights
-    adds = [c for c in calls_in(fn.node) if last_attr(c) in ACCUMULATING and isinstance(c.func, ast.Attribute)]
+    # (a write in the body of a loop over a literal table of (index, weight) rows is one write per row: `unrolled`)
+    adds_at: List[Tuple[ast.Call, Optional[Node]]] = [(u, cfg.node_of(c)) for c in calls_in(fn.node) if last_attr(c) in ACCUMULATING and isinstance(c.func, ast.Attribute)
+                                                      for u in unrolled(cfg, c, cfg.node_of(c))]
+    adds = [c for c, _ in adds_at]
     ck.ob("C18.2", fn, fn.node, len(adds) == 2, "mass is written by exactly two index_add_ calls (lower and upper atom)",
           detail=f"found {len(adds)} accumulating writes (index_add_ / scatter_add_)", construct="index_add_ calls")
     roles = {}
     bufs: List[Optional[Node]] = []  # per write: the `x = zeros(...)` statement whose tensor receives the mass
-    for c in adds:
-        n = cfg.node_of(c)
+    for c, n in adds_at:
         if len(c.args) != 3 or n is None:
             ck.ob("C18.2", fn, c, False, "index_add_(dim, index, source) form")
             continue
@@ -223,7 +225,7 @@ def _run(ck: Check, repo: Repo) -> None:
         fixed = LOe is not None and HIe is not None and all(
             idx_of.get(w) is None or (idx_of[w] == tb.term(e, n) and mentions(tb, idx_of[w], lambda a, f=f: a.kind == "upd" and a.node is f.ast))
             for _, (w, _I, _W, n, *_r) in roles.items() for e, f in ([(LOe, f1)] if w == "lo" else [(HIe, f2)]))
-        ck.ob("C18.3", fn, f2.ast, cfg.dominates(f1, f2) and all(cfg.node_of(c) is not None and cfg.dominates(f2, cfg.node_of(c)) for c in adds) and fixed,
+        ck.ob("C18.3", fn, f2.ast, cfg.dominates(f1, f2) and all(n is not None and cfg.dominates(f2, n) for _, n in adds_at) and fixed,
               "the order is lower-fix, upper-fix, then the two writes")
 
     # ---- C18.6 bounded index
@@ -414,11 +416,17 @@ def _learn(ck: Check, repo: Repo) -> None:
     ck.floor("C18.5", len(calls), 4, "_dqn_loss calls in learn (1-step / n-step x PER / non-PER)", fn=fn)
     one_names: Set[str] = set()  # locals that receive the 1-step element-wise loss
     n_names: Set[str] = set()  # locals that receive the n-step element-wise loss
+    # the arguments are read through the helper's signature: slots 0-4 take the batch, slot 5 the discount, whether handed over by position or by keyword
+    callee = repo.fn(RB, "RainbowDQN._dqn_loss")
+    slots = callee.named_params[1:]
     for c in calls:
         n = cfg.node_of(c)
-        g = tb.term(c.args[5], n) if len(c.args) > 5 else None
+        bound = [bind_arg(callee, c, p) for p in slots[:6]]
+        g = tb.term(bound[5], n) if len(bound) > 5 and bound[5] is not None else None
         roots = set()
-        for a in c.args[:5]:
+        for a in bound[:5]:
+            if a is None:
+                continue
             for at, _, _ in walk_atoms(tb, tb.term(a, n)):
                 if at.kind == "param":
                     roots.add(at.name)
@@ -435,12 +443,16 @@ def _learn(ck: Check, repo: Repo) -> None:
     pr = [n for n in pr if not _is_none(n.ast.value)]
     ok = False
     for n in pr:
-        t = tb.term(n.ast.value, n)
-        eps = tb.term(_expr("self.prior_eps"), n)
-        rest = t - eps
-        ok = len(rest.t) == 1 and mentions(tb, rest, lambda a: a.kind == "call" and a.name == "_dqn_loss")
-        gs = [ast.unparse(g) for g, pol, _ in cfg.guards_at(n) if pol]
-        ok = ok and "per" in gs
+        # `x = a if c else None` is `if c: x = a else: x = None`: every alternative that is not None is the priorities, under its own condition
+        for v, conds in _alternatives(n.ast.value):
+            if _is_none(v):
+                continue
+            t = tb.term(v, n)
+            eps = tb.term(_expr("self.prior_eps"), n)
+            rest = t - eps
+            ok = len(rest.t) == 1 and mentions(tb, rest, lambda a: a.kind == "call" and a.name == "_dqn_loss")
+            gs = [ast.unparse(g) for g, pol, _ in cfg.guards_at(n) if pol] + [g for g, pol in conds if pol]
+            ok = ok and "per" in gs
     ck.ob("C18.5", fn, pr[0].ast if pr else fn.node, ok, "under PER the new priorities are the element-wise loss plus prior_eps")
     # position 1 is a local that only ever holds experiences["idxs"] or None; position 2 a local that only ever holds None or the priorities above
     def _ret_ok(r: Node) -> bool:
@@ -482,6 +494,17 @@ def _learn(ck: Check, repo: Repo) -> None:
           "under PER the importance weights enter the scalar training loss only: the element-wise loss that becomes the new priorities is left unweighted",
           detail=(f"`{short(tainted[0].ast, 80)}` multiplies the weights into a per-sample quantity: the priorities handed back are w_i * CE_i instead of the cross-entropy"
                   if tainted else "the sampled weights are not used in the loss that is back-propagated"))
+
+
+def _alternatives(v: ast.AST, _conds: Tuple[Tuple[str, bool], ...] = ()) -> List[Tuple[ast.AST, Tuple[Tuple[str, bool], ...]]]:
+    """the values a (nested) conditional expression can take, each with the (test text, polarity) pairs under which it is taken; `not c` flips the polarity."""
+    if isinstance(v, ast.IfExp):
+        test, pol = v.test, True
+        while isinstance(test, ast.UnaryOp) and isinstance(test.op, ast.Not):
+            test, pol = test.operand, not pol
+        txt = ast.unparse(test)
+        return _alternatives(v.body, _conds + ((txt, pol),)) + _alternatives(v.orelse, _conds + ((txt, not pol),))
+    return [(v, _conds)]
 
 
 def _is_none(v: ast.AST) -> bool:
@@ -553,4 +576,31 @@ VARIANTS = [
     ("fixup-stale-equality-mask", _RF, "            L[(u > 0) * (L == u)] -= 1\n            u[(L < (self.num_atoms - 1)) * (L == u)] += 1\n",
      "            on_atom = L == u\n            L[on_atom & (u > 0)] -= 1\n            u[on_atom & (u < (self.num_atoms - 1))] += 1\n", "fire", "C18.3"),
     ("offset-broadcast-over-batch", _RF, "                .expand(self.batch_size, self.num_atoms)\n", "                .expand(self.batch_size, self.batch_size)\n", "fire", "C18.4"),
+]
+# ---- round 4: arguments of the loss helper by keyword, priorities as a conditional expression, the two writes as a loop over a literal table
+_ONE_STEP = "            new_priorities = None\n            if self.combined_reward or not n_step:\n                elementwise_loss = self._dqn_loss(\n                    states, actions, rewards, next_states, dones, self.gamma\n"
+_WRITES = ("            proj_dist.view(-1).index_add_(\n                0, (L + offset).view(-1), (target_q_dist * (u.float() - b)).view(-1)\n            )\n"
+           "            proj_dist.view(-1).index_add_(\n                0, (u + offset).view(-1), (target_q_dist * (b - L.float())).view(-1)\n            )\n")
+_PRIO = "        if per:\n            loss_for_prior = elementwise_loss.detach().cpu().numpy()\n            new_priorities = loss_for_prior + self.prior_eps\n"
+VARIANTS += [
+    ("one-step-discount-by-keyword-ok", _RF, _ONE_STEP,
+     "            new_priorities = None\n            if self.combined_reward or not n_step:\n                elementwise_loss = self._dqn_loss(\n                    states, actions, rewards, dones=dones, gamma=self.gamma, next_states=next_states\n", "silent", None),
+    ("one-step-discount-by-keyword-is-n-step-discount", _RF, _ONE_STEP,
+     "            new_priorities = None\n            if self.combined_reward or not n_step:\n                elementwise_loss = self._dqn_loss(\n                    states, actions, rewards, next_states, dones, gamma=self.gamma**self.n_step\n", "fire", "C18.5"),
+    ("priorities-conditional-expression-ok", _RF, _PRIO,
+     "        new_priorities = (\n            elementwise_loss.detach().cpu().numpy() + self.prior_eps if per else None\n        )\n", "silent", None),
+    ("priorities-conditional-expression-inverted", _RF, _PRIO,
+     "        new_priorities = (\n            elementwise_loss.detach().cpu().numpy() + self.prior_eps if not per else None\n        )\n", "fire", "C18.5"),
+    ("projection-writes-as-table-loop-ok", _RF, _WRITES,
+     "            for atom_idx, share in ((L, u.float() - b), (u, b - L.float())):\n                proj_dist.view(-1).index_add_(\n                    0, (atom_idx + offset).view(-1), (target_q_dist * share).view(-1)\n                )\n", "silent", None),
+    ("projection-table-loop-both-rows-lower-atom", _RF, _WRITES,
+     "            for atom_idx, share in ((L, u.float() - b), (L, b - L.float())):\n                proj_dist.view(-1).index_add_(\n                    0, (atom_idx + offset).view(-1), (target_q_dist * share).view(-1)\n                )\n", "fire", "C18.2"),
+    ("projection-table-loop-weights-swapped", _RF, _WRITES,
+     "            for atom_idx, share in ((L, b - L.float()), (u, u.float() - b)):\n                proj_dist.view(-1).index_add_(\n                    0, (atom_idx + offset).view(-1), (target_q_dist * share).view(-1)\n                )\n", "fire", "C18.2"),
+    ("projection-table-loop-one-row-only", _RF, _WRITES,
+     "            for atom_idx, share in ((L, u.float() - b),):\n                proj_dist.view(-1).index_add_(\n                    0, (atom_idx + offset).view(-1), (target_q_dist * share).view(-1)\n                )\n", "fire", "C18.2"),
+    ("projection-table-loop-index-tensor-updated-in-the-body", _RF, _WRITES,
+     "            for atom_idx, share in ((L, u.float() - b), (u, b - L.float())):\n                proj_dist.view(-1).index_add_(\n                    0, (atom_idx + offset).view(-1), (target_q_dist * share).view(-1)\n                )\n                u += 1\n", "fire", "C18.2"),
+    ("projection-table-loop-fancy-index-augassign", _RF, _WRITES,
+     "            for atom_idx, share in ((L, u.float() - b), (u, b - L.float())):\n                proj_dist.view(-1)[(atom_idx + offset).view(-1)] += (target_q_dist * share).view(-1)\n", "fire", "C18.8"),
 ]
